@@ -415,6 +415,8 @@ fn adapters(reduced: bool) -> Vec<Ad> {
             (20, 20, 2, 2),  // disjoint
             (2, 2, 0, 2),    // zero-sized inside
             (-9, 0, 0, 0),   // zero-sized outside
+            (1, 1, 30, 0),   // zero height but wider than any parent or fill area, top-left inside
+            (2, 1, 0, 30),   // zero width but taller than any parent or fill area, top-left inside
         ]
     };
     let mut v = vec![];
@@ -501,7 +503,7 @@ fn run_part(run: &mut Run) {
             let depth = tier.pick(2, 3);
             let m = WithAlphabet { acts: alphabet(depth, false) };
             run.note(format!("full alphabet: {} actions ({} stacks of depth <= {depth} x {} operations)", m.acts.len(), stacks(depth, false).len(), ops(false).len()));
-            run.explore("single-actions", "every action (adapter stack of depth<=2 quick/3 thorough over 25 adapters x 44 operations) from 16 initial states (4 parent boxes x default/native fill x blank/pre-filled)", &m, inits(), 1);
+            run.explore("single-actions", "every action (adapter stack of depth<=2 quick/3 thorough over 29 adapters x 44 operations) from 16 initial states (4 parent boxes x default/native fill x blank/pre-filled)", &m, inits(), 1);
         }
         "nested3" => {
             // depth-3 nestings over the reduced adapter alphabet x the full operation list
